@@ -67,6 +67,27 @@ Theorem C04_one_outstanding_fifo : forall c evs s o, wf c -> run c (init c) evs 
 Proof. exact one_outstanding. Qed.
 Print Assumptions C04_one_outstanding_fifo.
 
+(* The FIFO clause on its own: for every issue history (any number of threads, any interleaving with the updater) and every
+   reply schedule, the packets on the wire are an initial segment of the requests in the order they were issued (put),
+   and once nothing is queued or held by the updater the wire order IS the issue order. *)
+Theorem C04_wire_order_is_issue_order : forall c evs s o, run c (init c) evs = Some (s, o) ->
+  (exists rest, enqs o = txs o ++ rest) /\ (s_queue s = [] -> s_hand s = None -> txs o = enqs o).
+Proof.
+  intros c evs s o H. pose proof (fifo_from_init c evs s o H) as E. split; [now exists (pend s)|].
+  intros Hq Hh. rewrite E. unfold pend. rewrite Hq, Hh. cbn. now rewrite app_nil_r.
+Qed.
+Print Assumptions C04_wire_order_is_issue_order.
+
+(* A two-class priority queue (write-channel requests overtake queued reads and misc requests) in place of the FIFO
+   breaks it: issue order set a, read b, read c, set c=5, store c, set c=6 goes out as set a, set c=5, set c=6,
+   read b, read c, store c, and the persistent store saves 6 instead of 5. *)
+Theorem C04_priority_queue_refuted : exists c evs s o, run_prio c (init c) evs = Some (s, o) /\
+  skipn 3 (enqs o) = [(2, [10; 0; 1; 0]); (1, [11; 0]); (1, [12; 0]); (2, [12; 0; 5; 0]); (3, [3; 12; 0]); (2, [12; 0; 6; 0])] /\
+  skipn 3 (txs o)  = [(2, [10; 0; 1; 0]); (2, [12; 0; 5; 0]); (2, [12; 0; 6; 0]); (1, [11; 0]); (1, [12; 0]); (3, [3; 12; 0])] /\
+  aget 12 (d_stored s) = [6; 0].
+Proof. destruct ex_prio_reorders as [s [o H]]. exists (ex_cfg true), ex_backlog, s, o. exact H. Qed.
+Print Assumptions C04_priority_queue_refuted.
+
 (* ---------------------------------------------------------------- cache, get_value and observers *)
 
 (* In every reachable state, delivering a packet that carries a value for parameter id i (read reply, write reply
